@@ -11,11 +11,16 @@ from exactly that grammar, on near-misses (mutations, arbitrary unicode), and on
 from __future__ import annotations
 
 import itertools
+import json
+import os
 import random
 import re
+import subprocess
+import sys
+from pathlib import Path
 from typing import Any
 
-from vp.core import Check, Failure, drive, enc, load_corpus
+from vp.core import Check, Failure, Infra, drive, enc, load_corpus
 
 META = dict(
     level_text="Lean 4 theorems about the line model: for every well-formed line the parts (indentation, threshold, "
@@ -187,7 +192,7 @@ def oracle_line(case: dict) -> Failure | None:
     try:
         node = pc.parse_one_line(case["line"])
     except Exception as e:
-        return Failure("parse-line-raises", case, f"{type(e).__name__}: {e}")
+        return Failure(f"parse-raises:{type(e).__name__}", case, f"{case['line']!r}: {type(e).__name__}: {e}")
     want = {"indent": case["indent"], "indent_error": case["indent"] % 4 != 0, "threshold": case["thr"] or "",
             "name": case["name"], "argument": case["arg"] or "", "has_argument": case["arg"] is not None,
             "has_comment": case["comment"] is not None, "comment": case["comment"][1] if case["comment"] else "",
@@ -214,7 +219,7 @@ def oracle_cond(case: dict) -> Failure | None:
     try:
         PcodeParser._parse_tag_operator_value(node)
     except Exception as e:
-        return Failure("parse-condition-raises", case, f"{type(e).__name__}: {e}")
+        return Failure(f"parse-raises:{type(e).__name__}", case, f"{case['part']!r}: {type(e).__name__}: {e}")
     return cond_failure(case, node.tag_operator_value, case["cond"])
 
 
@@ -226,8 +231,9 @@ def _uod() -> str:
 
 
 def line_op(line: str, fx: str = "1", parts: bool = False) -> list[str]:
-    """parts=True: only the parts the property speaks about (no raw regex groups); the error-line flag is 0 (as is)"""
-    return [f"{'linep' if parts else 'line'}\t{fx}\t0\t{_uod()}\t{enc(line)}"]
+    """parts=True: only the parts the property speaks about (no raw regex groups); error-line flag 1 = the line
+    parser as repaired in /repo (4ad2b33e)"""
+    return [f"{'linep' if parts else 'line'}\t{fx}\t1\t{_uod()}\t{enc(line)}"]
 
 
 _NUM = r"[+-]?(?:\d+(?:\.\d*)?|\.\d+)(?:[eE][+-]?\d+)?"
@@ -261,6 +267,10 @@ def illformed_streams(ctx: Check, streams: list) -> None:
                 io.append([str(x) for x in impl(c)])
             except Exception as e:
                 io.append([f"err:{type(e).__name__}"])
+            if io[-1] and io[-1][0].startswith("err:"):
+                # what the parser makes of ill-formed input is its business — but it must not raise
+                ctx.fail(Failure("parse-raises:" + io[-1][0][4:], c,
+                                 f"stream {name}: the parser raised {io[-1][0][4:]} on {c.get('line', c.get('part'))!r}"))
     mo = drive(DRIVER, all_lines)
     k = 0
     for name, cases, lines, impl in streams:
@@ -281,6 +291,56 @@ def cond_op(ops: list[str], part: str, fx: str = "1") -> list[str]:
     return [f"cond\t{fx}\t{enc_list(ops)}\t{enc(part)}"]
 
 
+_FRESH = """
+import sys, json
+sys.path.insert(0, %r)
+import logging
+logging.disable(logging.CRITICAL)
+import props.C18 as m
+out = []
+for i, c in enumerate(json.load(sys.stdin)):
+    f = m.oracle_line(c)
+    if f is not None:
+        out.append({"i": i, "key": f.key, "detail": f.detail})
+print("RESULT" + json.dumps(out))
+"""
+
+
+def fresh_process_failures(cases: list[dict]) -> list[dict]:
+    """The parts oracle on `cases`, parsed in this order by a parser in a FRESH interpreter: what a line decomposes
+    into must not depend on which node types the process has parsed before (class-level caches)."""
+    env = dict(os.environ, VERIF_SHARED_LEAN="1")   # the child only parses; it needs no Lean workspace
+    p = subprocess.run([sys.executable, "-c", _FRESH % str(Path(__file__).resolve().parent.parent)],
+                       input=json.dumps(cases), capture_output=True, text=True, env=env, timeout=600)
+    for ln in p.stdout.splitlines():
+        if ln.startswith("RESULT"):
+            return json.loads(ln[6:])
+    raise Infra(f"fresh-process oracle did not answer: rc={p.returncode} {(p.stdout + p.stderr)[-400:]}")
+
+
+def order_streams(ctx: Check, wf: list[dict]) -> None:
+    def cl(name: str, tag: str, op: str, val: str) -> dict:
+        text = f"{tag} {op} {val}"
+        return {"line": f"{name}: {text}", "indent": 0, "thr": None, "name": name, "arg": text, "comment": None,
+                "cond": {"tag": tag, "op": op, "value": val, "unit": None, "text": text}}
+    cond_lines = [c for c in wf if c.get("cond") and (c["cond"]["unit"] is None or set(c["cond"]["unit"]) <= UNIT_CLASS)]
+    sim = [c for c in cond_lines if c["name"] == "Simulate"]
+    wa = [c for c in cond_lines if c["name"] != "Simulate"]
+    orders = {
+        "simulate-first": [cl("Simulate", "X", "=", "5")] + [cl(n, "X", op, "5") for n in ("Watch", "Alarm") for op in COND_OPS]
+        + wa[: ctx.n(150, 3000)],
+        "watch-first": [cl("Watch", "X", ">=", "5")] + [cl("Simulate", "X", "=", "5")] + sim[: ctx.n(100, 2000)]
+        + wa[: ctx.n(50, 500)],
+    }
+    for name, cases in orders.items():
+        ctx.evaluations += len(cases)
+        ctx.count("fresh-process:" + name, len(cases))
+        for f in fresh_process_failures(cases)[:20]:
+            ctx.fail(Failure(f["key"] + ":in-fresh-process-after-other-node-type", {"fresh_process": [cases[0], cases[f["i"]]]},
+                             f"parsed in a fresh process after {cases[0]['line']!r}: {f['detail']}"))
+    ctx.extra["fresh_process_orders"] = {k: len(v) for k, v in orders.items()}
+
+
 def run(ctx: Check) -> int:
     from harness.translators import parse_tables
     from harness import parse_common as pc
@@ -297,7 +357,10 @@ def run(ctx: Check) -> int:
                 "Right-hand sides: all strings up to length 4/6 over {5,2,3,.,e,+,-,m,space}, split by an independent reading into "
                 "well-formed (number / number ws unit / text: deciding, with oracle) and ill-formed (agreement noted only). "
                 "Typed results (threshold, tag_value_numeric) are observed as exact fractions and must equal the number "
-                "written in the text. Near-miss / ill-formed input and raw regex groups are compared for the record only. Non-trivial = line has at "
+                "written in the text. Near-miss / ill-formed input (incl. conditions that repeat their operator) and raw regex groups are compared "
+                "for the record only, but an exception of the parser on any input is a failing input. Two sub-streams run the "
+                "parts oracle in a fresh interpreter with a Simulate line / a Watch line parsed first (no dependence on "
+                "what the process parsed before). Non-trivial = line has at "
                 "least two optional parts, or the condition has a unit or a multi-digit number.")
 
     corpus = load_corpus("C18")
@@ -333,6 +396,10 @@ def run(ctx: Check) -> int:
                                "cond": {"tag": "X", "op": ">", "value": cl["value"], "unit": cl["unit"], "text": part}})
     near_cond = [{"ops": rng.choice([COND_OPS, ["="]]),
                   "part": pc.rand_word(rng, " ab<>=!0123456789.eE+-mL/%2*#", 0, 12)} for _ in range(ctx.n(500, 30000))]
+    # conditions that repeat the operator found first (str.split then yields three parts)
+    near_cond += [{"ops": ops, "part": pad + r} for ops in (COND_OPS, ["="]) for r in pc.REPEATED_OP for pad in ("", " ")]
+    near += [{"line": ind + f"{thr}{name}: {r}{cm}"} for name in ("Watch", "Alarm", "Simulate") for r in pc.REPEATED_OP
+             for ind, thr, cm in (("", "", ""), ("    ", "1.5 ", "  # c"))]
 
     def nontrivial_line(c, o):
         if c.get("cond"):
@@ -363,6 +430,7 @@ def run(ctx: Check) -> int:
     # oracle
     ctx.monitor(wf_all, oracle_line)
     ctx.monitor(conds_all, oracle_cond)
+    order_streams(ctx, wf)
     for c in wf:
         ctx.count("line:" + ("".join(ch for ch, k in (("T", "thr"), ("A", "arg"), ("C", "comment"), ("K", "cond"))
                                      if c.get(k) is not None) or "name-only"))
@@ -405,6 +473,13 @@ def replay(obj) -> int:
     if not case:
         for d in obj.get("disagreements", [])[:1]:
             case = d.get("case", {})
+    if "fresh_process" in case:
+        print("parsed in a fresh process, in this order:", [c["line"] for c in case["fresh_process"]])
+        fs = fresh_process_failures(case["fresh_process"])
+        for f in fs:
+            print("oracle:", f["key"], f["detail"])
+        print("oracle: ok" if not fs else "")
+        return 1 if fs else 0
     if "line" in case:
         print("line:", repr(case["line"]))
         print("implementation:", pc.observe_line(case["line"]))
